@@ -719,6 +719,101 @@ def resolve_exec(run, fx):
     return True
 
 
+def initslot_exec(run, fx):
+    """LIMITARGS by symbolic execution (ordint.Poly): ShiftCollider::initSlot is interpreted with the limit rectangle, the current shift
+    and the current offset as SYMBOLS (comparisons of symbolic quantities explored both ways); Zones::initialise is a native that records
+    the range and the perpendicular coordinate each axis is given.  On every path, for every axis i with direction u_i in {(1,0), (0,1),
+    (1,1)/2, (1,-1)/2}: the range is exactly the set of axis coordinates  a_i.(offset + shift + t*u_i)  for which the shifted glyph stays
+    inside the limit rectangle in BOTH x and y -- derived here from the axis, the code's own `min` decisions being re-asked of the same
+    path -- and the perpendicular coordinate handed over is  a_i_perp.(offset + shift).  Form-independent: helpers, reordered operands and
+    hoisted locals give the same polynomials."""
+    fn = fx.one('graphite2::ShiftCollider::initSlot')
+    PC, PP, PR = 'graphite2::ShiftCollider::', 'graphite2::Position::', 'graphite2::Rect::'
+    rec = fx.record('graphite2::ShiftCollider')
+    sym = O.Poly.sym
+    inst = 'every axis range is the set of positions inside the limit rectangle (symbolic)'
+    AX = {0: (1, 0), 1: (0, 1), 2: (1, 1), 3: (1, -1)}
+    paths = 0
+    ch = O.Chooser()
+    try:
+        while True:
+            ch.start()
+            sc = O.Rec()
+            for f in rec['fields']:
+                sc[PC + f['n']] = O.Ptr(None) if f.get('ptr') else 0
+            sc[PC + '_limit'] = O.Rec({PR + 'bl': O.Rec({PP + 'x': 0, PP + 'y': 0}), PR + 'tr': O.Rec({PP + 'x': 0, PP + 'y': 0})})
+            for nm in ('_currOffset', '_currShift', '_origin'):
+                sc[PC + nm] = O.Rec({PP + 'x': 0, PP + 'y': 0})
+            sc[PC + '_ranges'] = O.It(O.Vec([O.Rec({'#axis': k}) for k in range(4)]), 0)
+            sc[PC + '_len'] = O.It(O.Vec([0, 0, 0, 0]), 0)
+            got = {}
+
+            def initialise(I, f, e, obj, a, got=got):
+                got[obj['#axis']] = (I.rv(a[0]), I.rv(a[1]), I.rv(a[4]))
+                return None
+            nat = {'graphite2::Zones::initialise': initialise,
+                   'graphite2::Segment::getFace': lambda I, f, e, obj, a: O.Ptr(O.Rec({'#face': 1})),
+                   'graphite2::Face::glyphs': lambda I, f, e, obj, a: O.Rec({'#gc': 1}),
+                   'graphite2::GlyphCache::check': lambda I, f, e, obj, a: True,
+                   'graphite2::GlyphCache::getBoundingBBox': lambda I, f, e, obj, a: O.Rec({'graphite2::BBox::xi': sym('bxi'), 'graphite2::BBox::xa': sym('bxa'), 'graphite2::BBox::yi': sym('byi'), 'graphite2::BBox::ya': sym('bya')}),
+                   'graphite2::GlyphCache::getBoundingSlantBox': lambda I, f, e, obj, a: O.Rec({'graphite2::SlantBox::si': sym('ssi'), 'graphite2::SlantBox::sa': sym('ssa'), 'graphite2::SlantBox::di': sym('sdi'), 'graphite2::SlantBox::da': sym('sda')}),
+                   'graphite2::Slot::gid': lambda I, f, e, obj, a: 5,
+                   'graphite2::Slot::origin': lambda I, f, e, obj, a: O.Rec({PP + 'x': sym('orx'), PP + 'y': sym('ory')}),
+                   'graphite2::Segment::collisionInfo': lambda I, f, e, obj, a: O.Ptr(O.Rec({'#coll': 1})),
+                   'graphite2::SlotCollision::seqClass': lambda I, f, e, obj, a: 0, 'graphite2::SlotCollision::seqProxClass': lambda I, f, e, obj, a: 0,
+                   'graphite2::SlotCollision::seqOrder': lambda I, f, e, obj, a: 0}
+            it = O.Interp(fx, chooser=ch, natives=nat)
+            it.MAX_STEPS = 20000
+            it.poly_sign = {}
+            lim = O.Rec({PR + 'bl': O.Rec({PP + 'x': sym('lblx'), PP + 'y': sym('lbly')}), PR + 'tr': O.Rec({PP + 'x': sym('ltrx'), PP + 'y': sym('ltry')})})
+            shf = O.Rec({PP + 'x': sym('sx'), PP + 'y': sym('sy')})
+            off = O.Rec({PP + 'x': sym('ox'), PP + 'y': sym('oy')})
+            r = it.call(fn, sc, [O.Ptr(O.Rec({'#seg': 1})), O.Ptr(O.Rec({'#slot': 1})), O.LV([lim], 0), sym('margin'), sym('mw'), O.LV([shf], 0), O.LV([off], 0), 1, O.Ptr(None)])
+            paths += 1
+            if r is not True and r != 1:
+                raise AnalysisBroken('initSlot returns %r on the symbolic glyph' % (r,))
+            if sorted(got) != [0, 1, 2, 3]:
+                run.violated('LIMITARGS', inst, fn.where(), 'initSlot initialises the ranges of axes %s, expected all four' % sorted(got))
+                return
+            # the limit that applies to the SHIFT is limit - offset (with a zero offset the two coincide; a symbolic offset is never "equal" to 0)
+            lbv = (sym('lblx') - sym('ox'), sym('lbly') - sym('oy'))
+            ltv = (sym('ltrx') - sym('ox'), sym('ltry') - sym('oy'))
+
+            def pmin(u, v):
+                return u if it.compare('<', u, v, fn, {'ln': 0}) else v            # re-asks the path's own decisions (memoised signs)
+            cur = (sym('sx'), sym('sy'))
+            tot = (sym('ox') + sym('sx'), sym('oy') + sym('sy'))
+            for i in range(4):
+                ax, ay = AX[i]
+                here = tot[0] * ax + tot[1] * ay                    # a . (offset + shift)
+                if i < 2:
+                    room_p, room_m, step = ltv[i] - cur[i], cur[i] - lbv[i], 1
+                    perp = tot[1 - i]
+                else:
+                    # along x+y both coordinates grow together; along x-y, y shrinks while x grows
+                    rx_p, rx_m = ltv[0] - cur[0], cur[0] - lbv[0]
+                    ry_p, ry_m = (ltv[1] - cur[1], cur[1] - lbv[1]) if ay > 0 else (cur[1] - lbv[1], ltv[1] - cur[1])
+                    room_p, room_m, step = pmin(rx_p, ry_p), pmin(rx_m, ry_m), 2
+                    perp = tot[0] - tot[1] * ay
+                want_mn, want_mx = here - room_m * step, here + room_p * step
+                mn, mx, a_ = (O.Poly.of(x) for x in got[i])
+                if mn != want_mn or mx != want_mx:
+                    run.violated('LIMITARGS', inst, fn.where(), 'axis %d (direction %s): initSlot gives its interval set the range [%s, %s]; the positions that keep the shifted glyph inside the limit '
+                                 'rectangle in both coordinates are [%s, %s] -- a fixed glyph can be moved beyond its limit, or is denied room it has' % (i, AX[i], mn, mx, want_mn, want_mx))
+                    return
+                if a_ != perp:
+                    run.violated('LIMITARGS', inst, fn.where(), 'axis %d: the perpendicular coordinate handed to the interval set is %s, expected %s' % (i, a_, perp))
+                    return
+            if not ch.advance():
+                break
+            if paths > 200:
+                raise AnalysisBroken('more than 200 paths through initSlot')
+    except O.Violation as v:
+        run.violated('LIMITARGS', inst, fn.where(), '%s (%s)' % (v.what, v.loc))
+        return
+    run.held('LIMITARGS', inst, fn.where(), '%d paths; limit, shift and offset symbolic' % paths)
+
+
 def limitdiag(run, fx):
     """LIMITARGS for the two diagonal interval sets: moving along x+y moves x and y the same way, along x-y opposite ways.  The range
     ShiftCollider::initSlot leaves free on a diagonal axis (a, b) is therefore bounded, in the positive direction, by the smaller of the
@@ -759,7 +854,8 @@ def limitdiag(run, fx):
         found[(int(arms[0]), fn.render(fn.N(e['c'][0])))] = (e, frozenset(form(fn.deref(a)) for a in mins[0]['args']))
     inst = 'diagonal limits are taken from the sides the axis moves towards'
     if len(found) != 4:
-        run.broken('LIMITARGS', inst, 'expected mn / mx = +-2 * min(a, b) + shift in the two diagonal arms of initSlot, recognised %d' % len(found), fn.where())
+        # the min-form rule is a second opinion; the symbolic execution of initSlot (initslot_exec) decides the same question whatever the form
+        run.observe('LIMITARGS: the diagonal limits of initSlot are not in the form mn / mx = +-2 * min(a, b) + shift (recognised %d of 4); decided by symbolic execution alone' % len(found))
         return
     bad = None
     for (ax, which), (e, got) in sorted(found.items()):
@@ -1099,7 +1195,7 @@ def run(run):
     N = 4 if run.tier == 'thorough' and not run.cfg_tag else 3
     for name, f in (('ZONESET', lambda: zoneset(run, fx, N)), ('ZONESET', lambda: initialise_exec(run, fx)), ('ZONEWRITERS', lambda: zonewriters(run, fx)),
                     ('OFFERED', lambda: offered(run, fx, N)), ('RESOLVED', lambda: resolved(run, fx)), ('RESOLVED', lambda: verdictshift(run, fx)),
-                    ('LIMITARGS', lambda: limitargs(run, fx)), ('LIMITARGS', lambda: kernclamp(run, fx)), ('LIMITARGS', lambda: initfresh(run, fx)), ('RESOLVED', lambda: rangestart(run, fx)), ('RESOLVED', lambda: resolve_exec(run, fx)), ('RESOLVED', lambda: axisbase(run, fx, optional=True)), ('RESOLVED', lambda: axisbase(run, fx, 'graphite2::ShiftCollider::mergeSlot', 'torg', 'mergeSlot places the limit window of axis i at that axis\' own form of the offset')), ('LIMITARGS', lambda: limitdiag(run, fx)), ('LIMITARGS', lambda: targetown(run, fx))):
+                    ('LIMITARGS', lambda: limitargs(run, fx)), ('LIMITARGS', lambda: kernclamp(run, fx)), ('LIMITARGS', lambda: initfresh(run, fx)), ('RESOLVED', lambda: rangestart(run, fx)), ('RESOLVED', lambda: resolve_exec(run, fx)), ('RESOLVED', lambda: axisbase(run, fx, optional=True)), ('RESOLVED', lambda: axisbase(run, fx, 'graphite2::ShiftCollider::mergeSlot', 'torg', 'mergeSlot places the limit window of axis i at that axis\' own form of the offset')), ('LIMITARGS', lambda: initslot_exec(run, fx)), ('LIMITARGS', lambda: limitdiag(run, fx)), ('LIMITARGS', lambda: targetown(run, fx))):
         try:
             f()
         except AnalysisBroken as ex:
